@@ -25,6 +25,8 @@ def configure(cfg):
     CFG.update(cfg)
     if "type" in cfg:
         _escape_schema(CFG["version"])        # schemas are built outside the tracer (construction cannot run under it)
+    if cfg.get("xsi"):
+        _xsi_schema(CFG["version"])
 
 
 def _profile(ops):
@@ -115,6 +117,8 @@ def h_limits(ops: List[bool], ns: List[bool], dlim: int, elim: int) -> bool:
 def explain(fn, args):
     if fn == "h_escape":
         return explain_escape(args)
+    if fn == "h_xsi":
+        return "XSD %s document %s" % (CFG["version"], ET.tostring(_xsi_doc(args)).decode())
     if fn != "h_limits":
         return ""
     ops = args["ops"]
@@ -162,6 +166,14 @@ def obligations(tier, seed):
                         "args": [["t%d" % i, "int"] for i in range(k)], "config": {"version": version, "type": n, "ntok": 12 if quick else len(TOKENS)},
                         "timeout": 200 if quick else 1500, "twin_timeout": 30,
                         "bound": "text = %d tokens from %r (finite choice)" % (k, TOKENS[:12 if quick else len(TOKENS)])})
+    for version in ("1.0", "1.1"):
+        for w in range(len(XSI_WHERE)):
+            if quick and XSI_WHERE[w] in ("c",):
+                continue
+            out.append({"name": "xsi/%s/on-%s" % (version, XSI_WHERE[w]), "fn": "h_xsi", "pre": "pre_xsi",
+                        "args": [["t", "int"], ["n", "int"], ["s", "int"], ["w", "int"]][:3 if not quick else 2] + [["w", "int"]],
+                        "config": {"version": version, "xsi": True, "fixed_w": w}, "timeout": 300 if quick else 1500, "twin_timeout": 30,
+                        "bound": "xsi:type from %r x xsi:nil from %r%s on element %s" % (XSI_TYPES, XSI_NILS, "" if quick else " x stray %r" % (XSI_STRAY,), XSI_WHERE[w])})
     for api in ("is_valid", "decode"):
         out.append({"name": "recursion/%s" % api, "engine": "smt", "fn": "smt_recursion", "config": {"api": api}, "timeout": 120,
                     "bound": "all depths 1..MAX_XML_DEPTH (linear frame model measured at depths 5, 10, 20)"})
@@ -320,8 +332,89 @@ def h_escape(**kw) -> bool:
         list(schema.iter_errors(elem))
         schema.decode(elem, validation='lax', datetime_types=True, binary_types=True)
         schema.decode(elem, validation='skip')
+    except Exception:
+        return False         # lax and skip modes never raise for invalid content
+    try:
+        schema.decode(elem, validation='strict')
     except XMLSchemaException:
-        return True          # library hierarchy (strict-mode style errors are acceptable from the API)
+        pass                 # strict mode: the library's own hierarchy only
+    return True
+
+
+# ---------------------------------------------------------------- stray / malformed xsi:* attributes (finite choice)
+_XSI_XSD = """<xs:schema xmlns:xs="http://www.w3.org/2001/XMLSchema">
+ <xs:element name="r"><xs:complexType><xs:sequence>
+   <xs:element name="i" type="xs:string" minOccurs="0"/>
+   <xs:element name="n" type="xs:int" nillable="true" minOccurs="0"/>
+   <xs:element name="c" minOccurs="0"><xs:complexType><xs:sequence><xs:element name="d" type="xs:decimal" minOccurs="0"/></xs:sequence><xs:attribute name="a"/></xs:complexType></xs:element>
+   <xs:any namespace="##other" processContents="lax" minOccurs="0"/>
+ </xs:sequence></xs:complexType></xs:element></xs:schema>"""
+XSI_NS = 'http://www.w3.org/2001/XMLSchema-instance'
+XSI_TYPES = [None, 'xs:int', 'xs:string', 'nope', 'p:nope', '', 'xs:nope', 'a:b:c', ' xs:decimal ', ':', 'xs:']
+XSI_NILS = [None, 'true', 'false', 'maybe', '', ' 1 ']
+XSI_STRAY = [None, ('kind', 'x'), ('schemaLocation', 'a'), ('noNamespaceSchemaLocation', 'u u'), ('type ', 'xs:int')]
+XSI_WHERE = ["i", "n", "c", "d", "z", "r"]
+_XSI = {}
+
+
+def _xsi_schema(version):
+    if version not in _XSI:
+        cls = xmlschema.XMLSchema10 if version == '1.0' else xmlschema.XMLSchema11
+        _XSI[version] = cls(_XSI_XSD)
+    return _XSI[version]
+
+
+def pre_xsi(fn, **kw):
+    lim = {"t": len(XSI_TYPES), "n": len(XSI_NILS), "s": len(XSI_STRAY), "w": len(XSI_WHERE)}
+    if "fixed_w" in CFG and kw.get("w") != CFG["fixed_w"]:
+        return False
+    return all(0 <= v < lim[k] for k, v in kw.items())
+
+
+def _xsi_doc(kw):
+    from engine.sym import pick
+    t = XSI_TYPES[pick(kw["t"], len(XSI_TYPES))]
+    n = XSI_NILS[pick(kw["n"], len(XSI_NILS))] if "n" in kw else None
+    st = XSI_STRAY[pick(kw["s"], len(XSI_STRAY))] if "s" in kw else None
+    where = XSI_WHERE[pick(kw["w"], len(XSI_WHERE))]
+    root = ET.Element('r')
+    nodes = {"r": root}
+    nodes["i"] = ET.SubElement(root, 'i')
+    nodes["i"].text = 'x'
+    nodes["n"] = ET.SubElement(root, 'n')
+    nodes["n"].text = '1'
+    nodes["c"] = ET.SubElement(root, 'c')
+    nodes["d"] = ET.SubElement(nodes["c"], 'd')
+    nodes["d"].text = '1.5'
+    nodes["z"] = ET.SubElement(root, '{urn:z}z')
+    target = nodes[where]
+    if t is not None:
+        target.set('{%s}type' % XSI_NS, t)
+    if n is not None:
+        target.set('{%s}nil' % XSI_NS, n)
+    if st is not None:
+        target.set('{%s}%s' % (XSI_NS, st[0]), st[1])
+    return root
+
+
+def h_xsi(**kw) -> bool:
+    """xsi:type / xsi:nil / stray xsi attributes with odd values on any element: lax validation and lax/skip decoding
+    return (they never raise for invalid content), strict mode raises only the library's own exceptions"""
+    schema = _xsi_schema(CFG["version"])
+    root = _xsi_doc(kw)
+    ns = {'xs': 'http://www.w3.org/2001/XMLSchema'}
+    try:
+        list(schema.iter_errors(root, namespaces=ns))
+        schema.is_valid(root, namespaces=ns)
+        schema.decode(root, validation='lax', namespaces=ns)
+        schema.decode(root, validation='skip', namespaces=ns)
+    except Exception:
+        return False
+    try:
+        schema.validate(root, namespaces=ns)
+        schema.decode(root, namespaces=ns)
+    except XMLSchemaException:
+        pass
     return True
 
 
